@@ -918,6 +918,14 @@ Qed.
 Lemma m_heartbeat_log w c : w_log (fst (m_heartbeat w c)) = w_log w.
 Proof. unfold m_heartbeat. destruct (verify_cid (leader_st w) c); reflexivity. Qed.
 
+Lemma c_heartbeat_log w n lost : w_log (fst (c_heartbeat w n lost)) = w_log w.
+Proof.
+  unfold c_heartbeat. destruct (cur_node w n); [|reflexivity].
+  destruct (n_pc c); try reflexivity.
+  pose proof (m_heartbeat_log w id) as Hl. destruct (m_heartbeat w id) as [w1 r]. simpl in *.
+  rewrite <- Hl. destruct r; [destruct lost|]; try reflexivity. break_match; reflexivity.
+Qed.
+
 Lemma log_grows w e : exists l, w_log (step w e) = w_log w ++ l.
 Proof.
   assert (Hnil : forall w0, w_log w0 = w_log w -> exists l, w_log w0 = w_log w ++ l).
@@ -960,6 +968,7 @@ Proof.
   - apply Hnil. reflexivity.
   - apply Hnil. reflexivity.
   - apply Hnil. unfold ev_snap_install. break_match; reflexivity.
+  - apply Hnil. apply c_heartbeat_log.
 Qed.
 
 (* ---------- the snapshot object held by raft ---------- *)
@@ -976,6 +985,13 @@ Lemma SInvP_app lg l sn : SInvP lg sn -> SInvP (lg ++ l) sn.
 Proof.
   destruct sn as [[idx st]|]; simpl; auto. intros [Hi Hs]. split; [rewrite app_length; lia|].
   rewrite firstn_app. replace (idx - length lg)%nat with 0%nat by lia. rewrite firstn_O, app_nil_r. auto.
+Qed.
+
+Lemma c_heartbeat_snap w n lost : w_snap (fst (c_heartbeat w n lost)) = w_snap w.
+Proof.
+  unfold c_heartbeat. destruct (cur_node w n); [|reflexivity]. destruct (n_pc c); try reflexivity.
+  unfold m_heartbeat. destruct (verify_cid (leader_st w) id); simpl; [|reflexivity].
+  destruct lost; [reflexivity|]. break_match; reflexivity.
 Qed.
 
 Lemma snap_same w e : e <> EvSnapTake -> w_snap (step w e) = w_snap w.
@@ -1017,6 +1033,7 @@ Proof.
     destruct (Nat.eqb j (w_leader w)); [reflexivity|]. destruct (nth_error (w_reps w) j); [|reflexivity].
     destruct (w_snap w) as [[idx st]|] eqn:E; [|congruence].
     destruct (Nat.leb (r_applied r) idx); simpl; congruence.
+  - apply c_heartbeat_snap.
 Qed.
 
 Lemma ev_snap_install_Inv w j : Inv w -> SInv w -> Inv (ev_snap_install w j).
@@ -1079,6 +1096,8 @@ Proof.
   - split; [|simpl; lia]. split; [unfold RInv, leader_rep in *; simpl; exact HR|].
     split; [unfold HInv, canon in *; simpl; exact HH | unfold CInv, canon in *; simpl; exact HC].
   - apply Hsame; [apply ev_snap_install_Inv; auto|]. unfold ev_snap_install. break_match; reflexivity.
+  - unfold c_heartbeat_syncfail. destruct (c_heartbeat_Inv w n (sync_needed w n) HI) as (H1 & H2 & _).
+    split; auto. rewrite H2. auto.
 Qed.
 
 Lemma Inv_init : Inv w_init.
